@@ -246,10 +246,15 @@ MUTANTS = [
     ("dictbox-iterates-in-reverse", {"C06": "A14.containers", "C12": "A14.containers"}, [(BU, "    def __iter__(self):\n        return self._value.__iter__()", "    def __iter__(self):\n        return reversed(self._value)")]),
     ("trace-installs-a-warnings-filter", {"C19": "A11.state"}, [(TR, "            warnings.warn(\"Output seems independent of input.\")", "            warnings.simplefilter(\"once\")\n            warnings.warn(\"Output seems independent of input.\")")]),
     ("matmul-adjoint-fast-path-skips-kind-cast", {"C05": "A4.match", "C09": "A4.match"}, [(NV, "    _, A_ndim, _, _ = A_meta\n    if A_ndim == 1:\n        G = anp.expand_dims(G, anp.ndim(G) - 1)", "    _, A_ndim, _, _ = A_meta\n    if A_ndim == 2 and B_ndim == 2:\n        return anp.matmul(G, anp.swapaxes(B, 0, 1))\n    if A_ndim == 1:\n        G = anp.expand_dims(G, anp.ndim(G) - 1)")]),
+    ("sqrt-jvp-of-modulus", {"C09": "A4.holo"}, [(NJ, "defjvp(anp.sqrt, lambda g, ans, x: g * 0.5 * x**-0.5)", "defjvp(anp.sqrt, lambda g, ans, x: g * 0.5 * anp.abs(x) ** -0.5)")]),
+    ("trace-warns-only-at-level-zero", {"C19": "A12.cmp"}, [(TR, "            warnings.warn(\"Output seems independent of input.\")", "            if t < 1:\n                warnings.warn(\"Output seems independent of input.\")")]),
+    ("untake-skips-scatter-for-scalars", {"C11": "A9.scatter"}, [(NV, "    def mut_add(A):\n        onp.add.at(A, idx, x)\n        return A", "    def mut_add(A):\n        if onp.ndim(x) or onp.ndim(A):\n            onp.add.at(A, idx, x)\n        return A")]),
     ("container-space-loses-subval", {"C12": "A1.spaces"}, [(BU, "    def _subval(self, xs, idx, x):\n        d = dict(xs.items())\n        d[idx] = x\n        return d\n", "")]),
 ]
 
 BENIGN = [
+    ("power-exponent-rule-where-spelling", [(NJ, "    lambda g, ans, x, y: g * anp.log(replace_zero(x, 1.0)) * ans,", "    lambda g, ans, x, y: g * anp.log(anp.where(x, x, 1.0)) * ans,")]),
+    ("trace-id-renamed", [(TR, "    with trace_stack.new_trace() as t:\n        start_box = new_box(x, t, start_node)", "    with trace_stack.new_trace() as level:\n        start_box = new_box(x, level, start_node)")]),
     ("sort-guards-by-ndim-of-argument", [(NV, "def grad_sort(ans, x, axis=-1, kind=\"quicksort\", order=None):\n    # TODO: Cast input with np.asanyarray()\n    if len(x.shape) > 1:", "def grad_sort(ans, x, axis=-1, kind=\"quicksort\", order=None):\n    if anp.ndim(x) > 1:"), (NJ, "def fwd_grad_sort(g, ans, x, axis=-1, kind=\"quicksort\", order=None):\n    if len(x.shape) > 1:", "def fwd_grad_sort(g, ans, x, axis=-1, kind=\"quicksort\", order=None):\n    if anp.ndim(x) > 1:")]),
     ("dict-space-equality-written-out", [(BU, "class DictVSpace(ContainerVSpace):\n    def _values(self, x):", "class DictVSpace(ContainerVSpace):\n    def __eq__(self, other):\n        return type(self) == type(other) and self.shape == other.shape\n\n    def _values(self, x):")]),
     ("dictbox-iter-builtin", [(BU, "    def __iter__(self):\n        return self._value.__iter__()", "    def __iter__(self):\n        return iter(self._value)")]),
